@@ -4,7 +4,8 @@ import importlib
 import json
 import sys
 
-sys.path.insert(0, "/verif/harness")
+import os
+sys.path.insert(0, os.environ.get("VERIF_ROOT", "/verif") + "/harness")
 import common  # noqa: E402
 
 d = json.load(open(sys.argv[1]))
